@@ -160,7 +160,7 @@ func (h *hostPool) log(vs ...interface{}) {
 	h.trace = append(h.trace, "("+strings.Join(p, ",")+")")
 }
 
-var hostNames = []string{"probe", "probe2", "hvar", "hpair", "hpanic", "hnone", "hfix3", "hzero", "hid", "mkdur", "mkvals", "mkints", "mkptr", "hsend"}
+var hostNames = []string{"probe", "probe2", "hvar", "hpair", "hpanic", "hnone", "hfix3", "hzero", "hid", "mkdur", "mkvals", "mkints", "mkptr", "hsend", "hcall0", "hcall1", "hcallr", "hcall2"}
 
 func (h *hostPool) define(e *env.Env) {
 	e.Define("probe", func(x interface{}) interface{} { h.log(x); return x })
@@ -173,6 +173,11 @@ func (h *hostPool) define(e *env.Env) {
 	e.Define("hzero", func() interface{} { h.log(); return int64(7) })
 	e.Define("hid", func(x interface{}) interface{} { return x })
 	e.Define("hsend", func(c chan interface{}, v interface{}) { c <- v }) // a Go function to start with `go` (directed programs only)
+	// Go functions that call a script function back through func types without and with results (directed programs only)
+	e.Define("hcall0", func(f func()) { h.log("in0"); f(); h.log("out0") })
+	e.Define("hcall1", func(f func(interface{}), x interface{}) interface{} { h.log("in1"); f(x); h.log("out1"); return x })
+	e.Define("hcallr", func(f func() interface{}) interface{} { h.log("inr"); r := f(); h.log("outr"); return r })
+	e.Define("hcall2", func(f func(), g func()) { h.log("in2"); f(); g(); h.log("out2") })
 	// Go values of named non-struct types that carry methods (used by impl-only programs; not in the model)
 	e.Define("mkdur", func() time.Duration { return 1500 * time.Millisecond })
 	e.Define("mkvals", func() url.Values { return url.Values{"k": {"one", "two"}} })
